@@ -76,9 +76,11 @@ CLAIMS['C05'] = dict(
    design='3/C05', note=TB + '; numpy bit-generator state get/set trusted')
 CLAIMS['C20'] = dict(
    technique='Lean 4 proof (algebraic round-trip/frame laws over a byte-array file model, induction over dump sequences) + correspondence against an in-memory h5py stand-in + direct search',
-   text='17 theorems (C20_roundtrip, C20_dump_succeeds_iff, C20_overwrite, C20_fresh, C20_assign_exact, C20_tobytes_keeps_every_byte, '
+   text='27 theorems (C20_roundtrip, C20_dump_succeeds_iff, C20_overwrite, C20_fresh, C20_assign_exact, C20_tobytes_keeps_every_byte, '
         'C20_elementwise_read_drops_zero_bytes, C20_frame, C20_frame_datasets, C20_failed_dump_no_effect, C20_unlimited_preserved, '
-        'C20_sequences, C20_sequences_total, C20_sequences_catching, C20_state_roundtrip, C20_checkpoint_roundtrip, C20_checkpoint_other_name) '
+        'C20_sequences, C20_sequences_total, C20_sequences_catching, C20_state_roundtrip, C20_checkpoint_roundtrip, C20_checkpoint_other_name, '
+        'C20_stream_position_irrelevant, C20_stream_same_data, C20_stream_roundtrip, C20_stream_left_at_end, C20_bare_read_is_everything_iff, '
+        'C20_stream_just_written, C20_dump_state_via_stream, C20_other_files_untouched, C20_file_as_if_alone, C20_world_projection) '
         'over EpsieModel/Checkpoint.lean, for all byte strings and all dump sequences. The real dump_state/load_state/checkpoint/'
         'set_state_from_checkpoint run against harness/h5stub.py (numpy-backed) and are compared with the model byte for byte.',
    design='3/C20', note=TB + '; h5py is not installable here: fidelity of harness/h5stub.py to h5py/HDF5 (S1 storage, resize) is assumed; CPython pickle trusted')
@@ -191,7 +193,7 @@ CLAIMS['C13'] = dict(
    design='3/C13', note=TB + '; float gains have the sign and enclosure of the exact values (checked by the driver on every oracle value used)')
 CLAIMS['C14'] = dict(
    technique='Lean 4 proof (exact-arithmetic admissibility invariants and bounds for all histories; retry-loop bound; negative results forced by the proofs) + correspondence + draws-per-jump search on flat/needle bounded targets; recorded findings',
-   text='C14_retry_bound(_monotone,_scale), C14_accept_mass_le, C14_ss_bounded / _never_raises, C14_veitch_bounded / _gain_le / _pos_partial, C14_at_loglambda_bounded, '
+   text='C14_retry_bound(_monotone,_scale), C14_accept_mass_le, C14_ss_bounded / _never_raises, C14_veitch_bounded / _gain_le / _pos (every width stays positive under every history) / _pos_step / _never_raises / _guard_per_parameter / _zero_width_excluded, C14_at_loglambda_bounded, '
         'C14_at_shape_admissible / _scale_admissible, C14_eig_cov_admissible, C14_vmf_kappa_pos / _logkappa_step and the vMF no-raise statements, '
         'C14_window_gain_ge, and the negative results C14_at_stall_exact / C14_at_stall_witness (log lambda >= 1.5 T^0.4 - 10/3 under always-accept). Partial: '
         'IEEE overflow enters only as an explicit representability predicate. Real runs on flat and sharply peaked bounded targets (beta in {0, 1e-3, 1}, '
